@@ -7,7 +7,7 @@
 From NDN Require Import Base.Prelude Model.Keychain Spec.KeychainSpec.
 From NDN Require Import Proofs.KeychainTables Proofs.KeychainInv Proofs.KeychainOutcome Proofs.KeychainOutcomeB
   Proofs.KeychainInvariant Proofs.KeychainAbs Proofs.KeychainDefaults Proofs.KeychainCascade Proofs.KeychainRecovery
-  Proofs.KeychainSchemaAgree Proofs.KeychainHistory.
+  Proofs.KeychainSchemaAgree Proofs.KeychainRefine Proofs.KeychainHistory.
 Local Open Scope N_scope.
 
 Definition wf_history (h : list (option nat * op)) : Prop := Forall (fun fo => wf_op (snd fo)) h.
@@ -89,6 +89,18 @@ Theorem C15_delete_identity_cascades f n c r c' :
                            In ce (t_certs (db c'))).
 Proof. exact (del_identity_cascade f n c r c'). Qed.
 Print Assumptions C15_delete_identity_cascades.
+
+(* ---- model ⊑ spec, operation by operation: a run without injected failure changes the abstract state exactly
+   as Spec.spec_step says and raises exactly when the specification refuses (get_signer: no change) -------------- *)
+Theorem C15_step_refines_spec o c : inv c -> wf_op o -> refines o c (run_op None o c).
+Proof. exact (step_refines o c). Qed.
+Print Assumptions C15_step_refines_spec.
+
+(* ... so a history without failures is a run of the specification from the empty keychain *)
+Theorem C15_run_refines_spec ops :
+  Forall wf_op ops -> abs (run (map (fun o => (None, o)) ops)) = spec_run ops.
+Proof. exact (run_refines_spec ops). Qed.
+Print Assumptions C15_run_refines_spec.
 
 (* ---- signers --------------------------------------------------------------------------------------------------- *)
 (* whatever get_signer returns (with or without a failure) is the signer the specification selects:
